@@ -10,7 +10,7 @@ Python only orchestrates, counts and maps TLC's verdicts to VIOLATION lines."""
 import json, os, re, time
 from . import lib
 
-BUGS = ["nocritical", "flagfirst", "nolock", "noreduce", "noiolock", "sharedacc", "staleacc"]
+BUGS = ["nocritical", "flagfirst", "nolock", "noreduce", "noiolock", "sharedacc", "staleacc", "notextlock", "noguard"]
 ACTIONS = ["ReadFlag", "EnterCritical", "RecheckFlag", "Fill1", "Fill2", "SetFlag", "LeaveCritical", "UseTable", "Take", "Seek", "ReadIO",
            "LockLookup", "Find", "Compute", "LockInsert", "Count", "Insert", "Accumulate", "Reduce"]
 # several calls on the same objects with a changing number of active threads (StartCall): quick / thorough configurations
@@ -73,7 +73,7 @@ def run(ctx):
             if not rr.violation:
                 raise lib.ModelFailure("MC_Threads with protection '%s' removed does not violate any invariant: the model is vacuous" % what)
             ctx.notes.append("model with bug '%s' violates %s (as it must)" % (what, ",".join(re.findall(r"Invariant (\w+) is violated", rr.out))))
-    for a in ACTIONS + ["StartCall"]:
+    for a in ACTIONS + ["StartCall", "LogBegin", "LogEnd", "NestedCall"]:
         if cov.get(a, (0, 0))[1] == 0:
             raise lib.ModelFailure("MC_Threads: action %s never taken (vacuous model check)" % a)
     lib.log("C18: model checks done at %.0fs" % (time.time() - ctx.t0))
